@@ -611,6 +611,10 @@ impl<'p> Printer<'p> {
         if self.maybe(1, 6) {
             s.push('\n');
         }
+        if self.maybe(1, 25) {
+            // a byte-order mark is outside the token alphabet: a separator like any other
+            s.insert(0, '\u{feff}');
+        }
         s
     }
 }
@@ -653,9 +657,9 @@ impl Pol {
     }
 }
 
-pub const NAME_POOL: [&str; 24] = [
+pub const NAME_POOL: [&str; 28] = [
     "a", "b", "c", "d", "e", "f", "x", "y", "z", "p1", "q_2", "x'", "'y", "Ab", "é", "ñu", "变量",
-    "v_0", "v_1", "_", "T", "F", "orx", "nota",
+    "v_0", "v_1", "_", "T", "F", "orx", "nota", "A", "t", "x_", "aB",
 ];
 
 pub fn gen_cfg(rng: &mut Prng, max_names: usize, max_depth: usize) -> GenCfg {
